@@ -92,6 +92,14 @@ theorem ctor_before_spawned {tr : List Ev} {i s j : Nat} {t c : Tid} {a : Access
     (hj : tr[j]? = some b) (hb : b.tid = c) : HB tr i j :=
   HB.trans (HB.po his hi hs rfl) (HB.go hsj hs hj hb)
 
+/-- Hand-off (what an ownership *token* stands for): what `t` does before it signals on a channel-like
+    object (close(ch), send, end of the once.Do body, wg.Done) happens-before what `u` does after the
+    matching wait (receive, return of once.Do, wg.Wait) that follows the signal. -/
+theorem handoff_orders {tr : List Ev} {i s w j : Nat} {t u : Tid} {c : Nat} {a : Access} {b : Ev}
+    (his : i < s) (hsw : s < w) (hwj : w < j) (hi : tr[i]? = some (.acc t a)) (hs : tr[s]? = some (.signal t c))
+    (hw : tr[w]? = some (.wait u c)) (hj : tr[j]? = some b) (hb : b.tid = u) : HB tr i j :=
+  HB.trans (HB.po his hi hs rfl) (HB.trans (HB.chan hsw hs hw) (HB.po hwj hw hj hb.symm))
+
 /-- `raceFree` is exactly "no offending pair" (the list the check prints) -/
 theorem raceFree_iff_no_racyPairs (tbl : List Access) : raceFree tbl = true ↔ racyPairs tbl = [] := by
   unfold raceFree racyPairs
